@@ -123,10 +123,15 @@ pub fn run_in_worker(c: &Case) -> Value {
     if let Some(mut stdin) = child.stdin.take() {
         let _ = stdin.write_all(payload.as_bytes());
     }
+    let child_pid = child.id();
     let out = match child.wait_with_output() {
         Ok(o) => o,
         Err(e) => return json!({"status": "machinery", "msg": format!("wait: {e}")}),
     };
+    // a worker that was killed leaves its scratch directory behind
+    if std::env::var("PV_WORK").is_err() && std::env::var("PV_KEEP_SCRATCH").is_err() {
+        let _ = std::fs::remove_dir_all(std::path::Path::new("/dev/shm").join(format!("pv-work-{child_pid}")));
+    }
     let stdout = String::from_utf8_lossy(&out.stdout);
     if let Some(line) = stdout.lines().last() {
         if let Ok(v) = serde_json::from_str::<Value>(line) {
